@@ -53,7 +53,7 @@ def property_files(prop):
                 fs.append("Properties/" + f)
     return fs
 
-def check_obligations(prop, st):
+def check_obligations(prop, st, tier="quick"):
     """compile the property files on their own, parse Print Assumptions output"""
     files = property_files(prop)
     res = {"file": ", ".join(files), "theorems": [], "obligations": 0, "discharged": 0, "assumptions": [], "broken": [],
@@ -100,6 +100,16 @@ def check_obligations(prop, st):
         if not any(x.startswith(vf) or x.startswith("coqc " + vf) for x in res["broken"]):
             res["discharged"] += len(thms)
     res["assumptions"] = sorted(used)
+    if tier == "thorough" and not res["broken"]:
+        # independent re-check of the compiled property files and everything they depend on
+        mods = ["GT." + f[:-2].replace("/", ".") for f in files]
+        rc, out = build.sh(["coqchk", "-silent", "-o", "-Q", ".", "GT"] + mods, cwd=build.COQ, timeout=3400)
+        m = re.search(r"\* Axioms:(.*?)\n\s*\n\* Constants", out, flags=re.S)
+        res["coqchk"] = {"rc": rc, "axioms": (m.group(1).strip() if m else "?"), "tail": out[-600:]}
+        res["checker_cmd"] += " ; coqchk -silent -o -Q . GT " + " ".join(mods)
+        if rc != 0:
+            res["broken"].append("coqchk failed: " + out[-300:])
+            res["discharged"] = 0
     gate = grep_gate()
     if gate:
         res["broken"].append("grep gate: " + "; ".join(gate[:5]))
@@ -167,7 +177,7 @@ def summarize(cases):
 
 def run_check(prop, mod, tier, seed, st, known, t0):
     rng = random.Random(seed)
-    ob = check_obligations(prop, st)
+    ob = check_obligations(prop, st, tier)
     judge_ok = prop in st.get("judges", [prop])
     cases = []
     # corpus first
@@ -287,7 +297,7 @@ def run_check(prop, mod, tier, seed, st, known, t0):
         "samples": samples,
         "input_distribution": dist, "outcome_tags": tags,
         "correspondence_failures": len(corr), "oracle_failures": len(viol), "known_findings_hit": sorted(knownhits),
-        "proof_broken": ob["broken"], "extra": extra_info,
+        "proof_broken": ob["broken"], "extra": extra_info, "coqchk": ob.get("coqchk"),
         "exhaustive": False,
     }
     ev = {"property_id": prop, "tier": tier, "seed": seed, "level": getattr(mod, "LEVEL", "proof"),
